@@ -372,7 +372,8 @@ def build(S, c, rng):
 
 
 def run_bin(exe, argv, cwd, stdin=b"", stdin_dir=None, stdout_full=False, env=None, timeout=60):
-    e = {"PATH": os.environ.get("PATH", ""), "HOME": os.environ.get("HOME", "/root"), "RUST_BACKTRACE": "0"}
+    e = {"PATH": os.environ.get("PATH", ""), "RUST_BACKTRACE": "0"}
+    e.update(lib.noise_env())
     e.update(env or {})
     fin = fout = None
     try:
